@@ -103,7 +103,8 @@ Definition dawson (x : T) : T :=
 
 (** ** double Erfi(double x) = 2.0 / std::sqrt(M_PI) * std::exp(x * x) * Dawson_Integral(x);
     [pi] is the value of M_PI (the real number PI in the R instance, the double M_PI in the float instance). *)
-Definition erfi (pi : T) (x : T) : T := (#2 / nsqrt Ops pi * nexp Ops (x * x) * dawson x)%num.
+Definition erfi (pi : T) (x : T) : T :=
+  let h := nexp Ops (dec 1 2 * x * x)%num in (#2 / nsqrt Ops pi * h * dawson x * h)%num.
 
 (** ** Find_Root (src/Numerics.cpp, Ridder's method), as it is now: Ridder's point is clamped into the bracket,
     the loop stops when the bracket |x2 - x1| is below the accuracy, at most 2200 iterations.  A copy local to this property (C02 owns the theorems about it). *)
@@ -139,11 +140,12 @@ Definition find_root (f : T -> T) (xLeft xRight acc : T) : res T :=
     if neqb Ops fl #0 then Ok xl else if neqb Ops fr #0 then Ok xr else Exit
   else ridder ridder_fuel f acc xl xr fl fr xl.
 
-(** ** double Inv_Erf(double p): |p - 1| < 1e-16 returns 10 (with a warning), |p| >= 1 exits, otherwise
+(** ** double Inv_Erf(double p): |p - 1| < 1e-16 returns 10, |p + 1| < 1e-16 returns -10 (each with a warning), any other |p| >= 1 exits, otherwise
     Find_Root(x -> erf(x) - p, -10, 10, 1e-4).  The root finder is a parameter [FR]; the extracted program
     passes [find_root] above, the accuracy theorem takes C02's guarantee about it as a hypothesis. *)
 Definition inv_erf (FR : (T -> T) -> T -> T -> T -> res T) (p : T) : res T :=
   if nltb Ops (nabs Ops (p - #1)%num) (nlit Ops 1 10000000000000000 2028240960365167 (-104)) then Ok #10
+  else if nltb Ops (nabs Ops (p + #1)%num) (nlit Ops 1 10000000000000000 2028240960365167 (-104)) then Ok (- #10)%num
   else if nleb Ops #1 (nabs Ops p) then Exit
   else FR (fun x => (nerf Ops x - p)%num) (- #10)%num #10 (dec 1 10000).
 
